@@ -399,6 +399,14 @@ RULES = {
     # shapes of `write!(f, ..)` used there -> shim methods: `write!(f, "{}", e)` -> `f.vwrite(e.as_str())`, `write!(f, "<literal>")` ->
     # `f.vwrite("<literal>")`, `write!(f, "{name} = {}", e)` -> `f.vwrite3(name, " = ", e.as_str())`
     "R40": [("std::fmt::Formatter<'_>", "VFormatter")],
+    # R42: the OsString / PathBuf conversions of the suffix filter in collision_free_infix_for_rotated_file -> shims over the path text
+    "R42": [("PathBuf::from(pb)", "vpathbuf_from(pb)"),
+            ('pb2.extension()==Some(OsString::from("gz").as_ref())', 'vext_is(&pb2, "gz")'),
+            ('pb2.set_extension("")', "vdrop_extension(&mut pb2)"),
+            ("pb2.extension()==Some(OsString::from(sfx).as_ref())", "vext_is(&pb2, sfx.as_str())"),
+            ('.to_string_lossy().contains(".restart-")', '.to_string_lossy().vcontains_marker()')],
+    # R41 (computed): `[a, b].concat()` on two string slices (slice::concat is generic over Borrow<str>: no specification) -> `vconcat2(a, b)`
+    "R41": [],
     # R28 (computed): byte-offset string operations -> shims over the UTF-8 model of the unit (`byte_len` = sum of the characters' widths):
     # `s.find(c)` -> `s.vfind(c)`, `&s[..end]` -> `s.vslice_to(end)` (precondition: `end` is a character boundary), `&cow[..]` -> `vfull(&cow)`
     "R28": [],
@@ -503,6 +511,32 @@ def apply_rule(sf, a, b, rule, edits):
                 edits.replace(sigidx[p], sigidx[p + 5] + 1, [Piece(".v%s_filter_map" % tt[1], sf, toks[sigidx[p]].start)])
                 edits.replace(tail[0], tail[3] + 1, [Piece("")])
                 hits += 1
+        return hits
+    if rule == "R41":
+        for p in range(len(sigidx)):
+            if toks[sigidx[p]].text == "[" and sigidx[p] in sf.br:
+                close = sf.br[sigidx[p]]
+                after = [k for k in sigidx if k > close][:4]
+                if [toks[k].text for k in after] != [".", "concat", "(", ")"]:
+                    continue
+                # exactly one top-level comma inside the brackets
+                commas, k = [], sigidx[p] + 1
+                while k < close:
+                    if toks[k].text in "([{" and k in sf.br:
+                        k = sf.br[k] + 1
+                        continue
+                    if toks[k].text == ",":
+                        commas.append(k)
+                    k += 1
+                if len(commas) != 1:
+                    continue
+                a_txt = sf.text[toks[sigidx[p] + 1].start:toks[commas[0]].start].strip()
+                b_txt = sf.text[toks[commas[0]].end:toks[close].start].strip()
+                try:
+                    edits.replace(sigidx[p], after[3] + 1, [Piece("vconcat2(%s, %s)" % (a_txt, b_txt), sf, toks[sigidx[p]].start)])
+                    hits += 1
+                except ExtractError:
+                    pass
         return hits
     if rule == "R40":
         T = lambda q: toks[sigidx[q]]
